@@ -333,7 +333,9 @@ impl Live {
         sched::install();
         sched::reset();
         nd::reset();
-        let outer = Owner::new();
+        // a root owner per case (a child of the previous case's owner would make every context lookup walk
+        // an ever longer chain)
+        let outer = Owner::new_root(None);
         outer.set();
         let root = nd::create_root("main");
         let root2 = nd::create_root("main");
@@ -660,8 +662,9 @@ fn main() {
                     if let Some(mut l) = live.take() {
                         let _ = catch_unwind(AssertUnwindSafe(|| {
                             drop(l.handle.take());
+                            sched::reset();
+                            l.outer.cleanup();
                         }));
-                        std::mem::forget(l.outer.clone());
                     }
                     live = Some(Live::new());
                     return match tags.get(name) {
